@@ -4,5 +4,5 @@ From Coq Require Import ZArith NArith.
 From VB Require Import Mempool.VsmDefs Mempool.PoolDefs Mempool.CountDefs.
 Extraction "Mempool_model.ml" Nat.pred N.succ Z.succ
   VsmDefs.run VsmDefs.run_v0 VsmDefs.step VsmDefs.empty
-  PoolDefs.pstep PoolDefs.pempty PoolDefs.known PoolDefs.connected PoolDefs.inflight
+  PoolDefs.pstep PoolDefs.submit PoolDefs.generate PoolDefs.removeAll PoolDefs.tryConnect PoolDefs.dropIds PoolDefs.cleanUp PoolDefs.clear PoolDefs.pempty PoolDefs.known PoolDefs.connected PoolDefs.inflight
   CountDefs.filter_fit CountDefs.fits CountDefs.est_kept CountDefs.popsize CountDefs.c0.
